@@ -161,6 +161,10 @@ def soak_part(ctx, v, rng, schema, out):
         conns = [{"id": wb["id"], "name": wb["name"], "sources": ["self"], "flags": wb.get("flags", []), "tables": wb["tables"]} for wb in wbs]
         cfg = {"update_interval": 1, "full_update_interval": rng.choice([5, 7, 11]), "max_parallel_peer_connections": rng.choice([1, 3]), "backend_keepalive": False,
                "idle_timeout": 100000, "stale_backend_timeout": 30, "net_timeout": 5, "connect_timeout": 2}
+        if ri % 2 == 0 or rng.random() < 0.3:
+            # the failures of the soak (5 virtual seconds) outlast the stale timeout: the data are dropped and synchronised anew,
+            # a swap of the whole data set without a restart of the core
+            cfg["stale_backend_timeout"] = 3
         lines = [{"op": "clock", "id": 1, "seconds": T0},
                  {"op": "daemon", "id": 2, "config": cfg, "backends": conns, "listen": ["l1", "l2"], "ticker_ms": 10},
                  {"op": "soak", "id": 3, "soak": {"duration_ms": ms, "clients": clients, "restarts": True, "failures": ri != 1, "reloads": ri != 0 or ctx["tier"] == "quick"}},
